@@ -72,37 +72,6 @@ static void interp_T(const IntpC &c, vf::Obs &o) {
   bool subwin = !(ws == 0 && we == n);
   if (subwin) o.cls("window:strict-sub");
 
-  // exact solve decides unique solvability (the statement quantifies over uniquely solvable problems)
-  bspline::support::Support<Q> xq(make_grid<Q>(c.g), ws, we);
-  std::vector<Q> yq;
-  for (auto &r : yr) yq.push_back(vq::make(r));
-  std::array<Boundary<Q>, order - 1> bq;
-  for (size_t i = 0; i + 1 < order; i++) { bq[i].node = bexp[i].last ? Node::LAST : Node::FIRST; bq[i].derivative = bexp[i].der; bq[i].value = vq::make(bexp[i].val); }
-  std::optional<bspline::Spline<Q, order>> exact_sol;
-  try {
-    if (c.use_default) exact_sol.emplace(interpolate<Q, order, QSolver>(xq, yq));
-    else exact_sol.emplace(interpolate<Q, order, QSolver>(xq, yq, bq));
-  } catch (const Singular &) {
-    o.discard("singular");
-    return;
-  }
-  o.nt(nn >= 3 || !c.use_default || subwin);
-
-  // the spline under test
-  std::optional<bspline::Spline<T, order>> sol;
-  if constexpr (exactT) sol.emplace(*exact_sol);
-  else {
-    if (c.use_default) sol.emplace(interpolateUsingEigen<T, order>(x, y));
-    else sol.emplace(interpolateUsingEigen<T, order>(x, y, bnd));
-  }
-  const auto &s = *sol;
-  std::string inv = spline_invariant(s);
-  VCHECK(o, inv.empty(), "invalid result: " << inv);
-  VCHECK(o, s.getSupport() == x, "support of the result is not the input window");
-  VCHECK(o, s.getSupport().getStartIndex() == ws && s.getSupport().getEndIndex() == we, "support indices differ from the input window");
-  const auto &co = s.getCoefficients();
-  for (const auto &arr : co) for (const auto &v : arr) if constexpr (!exactT) { VCHECK(o, std::isfinite((double)v), "non-finite coefficient returned"); }
-
   // conditions as rows over the unknowns (midpoint coefficients): sum_k w_k c_{i,k} = rhs
   struct Row { std::vector<std::tuple<size_t, size_t, R>> w; R rhs; std::string what; };
   std::vector<Row> rows;
@@ -128,6 +97,56 @@ static void interp_T(const IntpC &c, vf::Obs &o) {
     r.what = std::string("boundary condition: derivative ") + std::to_string(b.der) + " at " + (b.last ? "last" : "first") + " node";
     rows.push_back(r);
   }
+  // unique solvability is decided by the HARNESS's own assembly of the conditions (exact elimination), not by the
+  // matrix the library builds: a library that assembles a singular system for a solvable problem must not be excused
+  {
+    const size_t N = rows.size();
+    std::vector<std::vector<R>> A(N, std::vector<R>(N, R(0)));
+    for (size_t r = 0; r < N; r++) for (const auto &[i, k, w] : rows[r].w) A[r][i * (order + 1) + k] += w;
+    bool singular = false;
+    for (size_t col = 0; col < N && !singular; col++) {
+      size_t piv = col;
+      while (piv < N && A[piv][col] == 0) piv++;
+      if (piv == N) { singular = true; break; }
+      std::swap(A[piv], A[col]);
+      for (size_t r = col + 1; r < N; r++) {
+        if (A[r][col] == 0) continue;
+        R f = A[r][col] / A[col][col];
+        for (size_t k2 = col; k2 < N; k2++) A[r][k2] -= f * A[col][k2];
+      }
+    }
+    if (singular) { o.discard("singular"); return; }
+  }
+  bspline::support::Support<Q> xq(make_grid<Q>(c.g), ws, we);
+  std::vector<Q> yq;
+  for (auto &r : yr) yq.push_back(vq::make(r));
+  std::array<Boundary<Q>, order - 1> bq;
+  for (size_t i = 0; i + 1 < order; i++) { bq[i].node = bexp[i].last ? Node::LAST : Node::FIRST; bq[i].derivative = bexp[i].der; bq[i].value = vq::make(bexp[i].val); }
+  std::optional<bspline::Spline<Q, order>> exact_sol;
+  try {
+    if (c.use_default) exact_sol.emplace(interpolate<Q, order, QSolver>(xq, yq));
+    else exact_sol.emplace(interpolate<Q, order, QSolver>(xq, yq, bq));
+  } catch (const Singular &) {
+    o.fail("the linear system assembled by interpolate() is singular although the problem is uniquely solvable (the conditions of the statement, assembled independently, have full rank)");
+    return;
+  }
+  o.nt(nn >= 3 || !c.use_default || subwin);
+
+  // the spline under test
+  std::optional<bspline::Spline<T, order>> sol;
+  if constexpr (exactT) sol.emplace(*exact_sol);
+  else {
+    if (c.use_default) sol.emplace(interpolateUsingEigen<T, order>(x, y));
+    else sol.emplace(interpolateUsingEigen<T, order>(x, y, bnd));
+  }
+  const auto &s = *sol;
+  std::string inv = spline_invariant(s);
+  VCHECK(o, inv.empty(), "invalid result: " << inv);
+  VCHECK(o, s.getSupport() == x, "support of the result is not the input window");
+  VCHECK(o, s.getSupport().getStartIndex() == ws && s.getSupport().getEndIndex() == we, "support indices differ from the input window");
+  const auto &co = s.getCoefficients();
+  for (const auto &arr : co) for (const auto &v : arr) if constexpr (!exactT) { VCHECK(o, std::isfinite((double)v), "non-finite coefficient returned"); }
+
   VCHECK(o, rows.size() == (order + 1) * (nn - 1), "harness: row count");
   R M2(0), x2(0), b2(0);
   for (const auto &r : rows) { for (const auto &[i, k, w] : r.w) M2 += w * w; b2 += r.rhs * r.rhs; }
